@@ -69,6 +69,9 @@ func runC33(rc *sk.RunCtx) {
 	fLongGap := tp.Chance(2, 3)
 	fStall := tp.Chance(1, 2)
 	fBurstAdd := tp.Chance(1, 2)
+	// a consumer that does not drain Purge to empty after every Advance: a backlog of expired items stays in the
+	// wheel across later Advances (nebula's own consumers drain, the statement quantifies over all purge histories)
+	fPartial := tp.Chance(1, 2)
 	rc.Trace("C33 wheelLen=%d locking=%v many=%v long=%v stall=%v burst=%v", inner.wheelLen, locking, fManyPerTick, fLongGap, fStall, fBurstAdd)
 	rc.Logf("tick=%v span=%v steps=%d", tick, span, steps)
 
@@ -89,11 +92,14 @@ func runC33(rc *sk.RunCtx) {
 		return ((d + tick - 1) / tick) * tick
 	}
 
-	advanceAndCheck := func() bool {
+	nPartial := 0
+	advanceAndCheck := func(limit int) bool {
 		w.Advance(now)
-		for {
+		drained := false
+		for n := 0; limit < 0 || n < limit; n++ {
 			id, ok := w.Purge()
 			if !ok {
+				drained = true
 				break
 			}
 			if id < 0 || id >= len(items) {
@@ -112,6 +118,11 @@ func runC33(rc *sk.RunCtx) {
 				rc.Fail("early", "tick=%v span=%v: item %d added at +%v returned at +%v, earliest legal +%v", tick, span, id, it.added.Sub(t0), now.Sub(t0), it.earliest.Sub(t0))
 				return false
 			}
+		}
+		if !drained {
+			// expired items may still sit in the backlog: lateness is judged at the next complete drain
+			nPartial++
+			return true
 		}
 		if pending > 0 {
 			for id, it := range items {
@@ -146,7 +157,11 @@ func runC33(rc *sk.RunCtx) {
 		}
 		now = now.Add(dt)
 		rc.AddSimTime(dt)
-		if !advanceAndCheck() {
+		limit := -1
+		if fPartial && tp.Chance(1, 2) {
+			limit = tp.Choose(4)
+		}
+		if !advanceAndCheck(limit) {
 			return
 		}
 		// additions at the current time (the wheel was just advanced to now)
@@ -189,7 +204,7 @@ func runC33(rc *sk.RunCtx) {
 	}
 	// drain: after span+3 ticks everything must be out
 	now = now.Add(span + 3*tick)
-	if !advanceAndCheck() {
+	if !advanceAndCheck(-1) {
 		return
 	}
 	if pending != 0 {
@@ -201,6 +216,7 @@ func runC33(rc *sk.RunCtx) {
 	rc.Count("adds.capped_beyond_span", int64(nCapped))
 	rc.Count("adds.below_tick", int64(nSubTick))
 	rc.Count("adds.tick_multiple", int64(nExact))
+	rc.Count("purge.left_backlog", int64(nPartial))
 	rc.Count("advance.sub_tick", gapClasses[1])
 	rc.Count("advance.normal", gapClasses[0])
 	rc.TraceQuiet(fmt.Sprintf("adds=%d gaps=%d/%d/%d", bucket(int64(nAdds)), bucket(gapClasses[1]), bucket(gapClasses[2]), bucket(gapClasses[3])))
